@@ -44,7 +44,10 @@ Pool == <<
   [t |-> NCall("VarI", <<NInt(1)>>), env |-> [I |-> IntV(20)]],
   \* a pattern computed at run time: a valid one, and one that is not a regular expression
   [t |-> NBin("matches", NId("S"), NId("T")), env |-> [S |-> Str("abc"), T |-> Str("b")]],
-  [t |-> NBin("matches", NId("S"), NId("T")), env |-> [S |-> Str("abc"), T |-> Str("(")]]
+  [t |-> NBin("matches", NId("S"), NId("T")), env |-> [S |-> Str("abc"), T |-> Str("(")]],
+  \* two ranges that together cross the budget; the first is the range item 3 builds
+  [t |-> NBin("+", NLen(NBin("..", NId("I"), NId("J"))), NLen(NBin("..", NInt(1), NId("K")))),
+   env |-> [I |-> IntV(0), J |-> IntV(6), K |-> IntV(3)]]
 >>
 
 VARIABLES hist,    \* sequence of pool indices
